@@ -290,6 +290,11 @@ async fn run(ops: &[Op], n: usize, mut seen: impl FnMut(&str, &Path, &str)) -> O
     if adaptive {
         seen("(adaptive-node)", &Path::Generic, "cfg");
     }
+    let two_key = ops.iter().any(|o| match o {
+        Op::Cmd(a, _) => matches!(gen::shape(a).split('+').next().unwrap_or(""), "RENAME" | "RENAMENX" | "RPOPLPUSH" | "LMOVE" | "MSETNX" | "SORT" | "EVAL" | "SMOVE" | "COPY"),
+        Op::Script(k, ..) => k == "eval" || k == "evalsha",
+        _ => false,
+    });
     let mut last_write: BTreeMap<Vec<u8>, Path> = BTreeMap::new();
     let mut shas: BTreeMap<usize, String> = BTreeMap::new();
     for (i, op) in ops.iter().enumerate() {
@@ -382,8 +387,13 @@ async fn run(ops: &[Op], n: usize, mut seen: impl FnMut(&str, &Path, &str)) -> O
                 }
             }
         }
-        // the keyspace is compared after every step, so the first divergent command is the culprit
-        if !matches!(op, Op::Advance(_)) {
+        // the keyspace is compared after every step, so the first divergent command is the culprit - except in a third of
+        // the cases ("sparse"): the snapshot itself sends a message to every shard (KEYS, TYPE, ..), which refreshes whatever a
+        // shard only brings up to date when it is spoken to; there it is taken every 7th step and at the end only
+        // (not where a command names two keys that may live on different shards: that listed divergence would be found late
+        // and blamed on a bystander)
+        let sparse = (ops.len() + 2 * n) % 3 == 0 && !two_key;
+        if !matches!(op, Op::Advance(_)) && (!sparse || i % 7 == 6 || i + 1 == ops.len()) {
             let s1 = snapshot(&one).await;
             let sn = snapshot(&many).await;
             if s1 != sn {
@@ -449,6 +459,14 @@ fn gen_ops(rng: &mut Rng, len: usize) -> Vec<Op> {
                 if ms > 0 {
                     now += ms;
                     ops.push(Op::Advance(ms));
+                    // deadlines may just have passed on every shard: speak to one or two shards only, then ask the whole node
+                    if rng.gen_bool(0.35) {
+                        for _ in 0..rng.gen_range(0..3) {
+                            let k = b(keypool[rng.gen_range(0..keypool.len())]);
+                            ops.push(Op::Cmd(if rng.gen_bool(0.5) { vec![b("GET"), k] } else { vec![b("EXISTS"), k] }, Path::Generic));
+                        }
+                        ops.push(Op::Cmd(vec![b("DBSIZE")], Path::Generic));
+                    }
                 }
             }
             2 => ops.push(Op::ScanWalk(if rng.gen_bool(0.5) { None } else { Some(b(["k*", "*", "{t}*", "?"][rng.gen_range(0..4)])) })),
